@@ -28,6 +28,18 @@
   6 and 7 go through one generic congruence of the Spec in the context,
   `evalFlag_ctx` (`LDEval/Proofs/CtxCongr.lean`).
 
+  Entry point (theorem audit, last section; helpers in `LDEval/Proofs/AuditLocality.lean`): each
+  family is lifted to the observation `Obs` of `evaluate`.
+    whole `Obs` equal ......... `evaluate_unreferenced_attribute`, `evaluate_unreferenced_kind(_multi/_single)`,
+                                `evaluate_metadata`, `evaluate_append_rules(_of_kind)`, `evaluate_perm_values`,
+                                `evaluate_perm_clauses_pure` (rule without segment clauses), `evaluate_rules_equiv`
+    whole `Obs` up to the
+    rule-index shift .......... `evaluate_insert_dead_rule` (dead rule that leaves the state alone)
+    result minus status,
+    `isExperiment` ............ `evaluate_perm_clauses_result`, `evaluate_insert_dead_rule_result` (segment clauses
+                                allowed); events, flag lookups, outcome: `evaluate_rules_events`
+    NOT invariant (F6) ........ `clause_order_observable`; `shortcut_observable` for `ShortcutNeutral`
+
   A caveat that the proofs make precise (7): turning a *single `user`* context into a
   multi-context is observable by a segment that has a per-kind list (`includedContexts` /
   `excludedContexts`) for kind `user`, because the evaluator skips the per-kind lists for a single
@@ -38,6 +50,7 @@ import LDEval.Properties.C03
 import LDEval.Properties.C04
 import LDEval.Properties.C05
 import LDEval.Proofs.CtxCongr
+import LDEval.Proofs.AuditLocality
 
 namespace LD.C20
 
@@ -1122,6 +1135,900 @@ example (extra : SCtx) (hk : extra.kind ≠ "user") :
 
 end Examples
 
+/-! ## Strengthened statements (theorem audit) -/
+
+section Audit
+
+/-! ### 6–7 at the entry point: the WHOLE observation of `evaluate`
+
+The model-level context congruence `evaluate_ctx` (`Proofs/AuditLocality.lean`) turns the two
+context perturbations into equalities of `Obs`: result (big-segments status included),
+`isExperiment`, prerequisite events, log lines, flag and segment lookups, big-segment queries and
+membership checks. -/
+
+theorem mapInd_invalid_iff (g : SCtx → SCtx) (ctx : Ctx) :
+    mapInd g ctx = .invalid ↔ ctx = .invalid := by
+  cases ctx <;> simp [mapInd]
+
+/-- **6, entry point.**  Changing (adding, removing, replacing) a custom attribute that no clause
+and no bucket-by of the evaluated flag, of any stored flag or of any stored segment refers to
+changes NOTHING observable about `Evaluator.Evaluate`: not the result, its big-segments status or
+experiment bit, not the prerequisite events, not the log lines, not which flags, segments and
+big-segment memberships are looked up. -/
+theorem evaluate_unreferenced_attribute {name : String} {g : SCtx → SCtx}
+    (hg : ∀ sc, AgreeExcept name sc (g sc)) (env : Env)
+    (hF : ∀ fl ∈ env.store.flags.map (·.2), FlagAvoids fl name)
+    (hS : ∀ s ∈ env.store.segments.map (·.2), SegAvoids s name)
+    (f : Flag) (hf : FlagAvoids f name) :
+    evaluate (withCtx env (mapInd g env.ctx)) f = evaluate env f :=
+  evaluate_ctx (fun fl hfl => flagOK_of_avoids hg env fl (hF fl hfl))
+    (fun s hs => segOK_of_avoids hg env s (hS s hs)) f (flagOK_of_avoids hg env f hf)
+    (mapInd_invalid_iff g env.ctx)
+
+/-- 6 as worded: adding an attribute `name` to the individual contexts of kind `k`. -/
+theorem evaluate_add_unreferenced_attribute (env : Env) (k name : String) (v : J)
+    (hF : ∀ fl ∈ env.store.flags.map (·.2), FlagAvoids fl name)
+    (hS : ∀ s ∈ env.store.segments.map (·.2), SegAvoids s name)
+    (f : Flag) (hf : FlagAvoids f name) :
+    evaluate (withCtx env (mapInd (addAttrTo k name v) env.ctx)) f = evaluate env f :=
+  evaluate_unreferenced_attribute (addAttrTo_agree k name v) env hF hS f hf
+
+/-- **7, entry point.**  Adding individual context(s) of a kind `k` that nothing in scope mentions
+changes nothing observable about `Evaluate`.  Side conditions, all needed: `k` is not the default
+kind; `ShortcutNeutral` for every stored segment (the evaluator skips the per-kind segment lists for
+a single `user` context, so turning such a context into a multi-context makes a per-kind list for
+kind `user` visible — counterexample `shortcut_observable` below); and the new context is invalid
+exactly when the old one is (an invalid context is answered USER_NOT_SPECIFIED before anything is
+read). -/
+theorem evaluate_unreferenced_kind {k : String} (env : Env) {ctx' : Ctx}
+    (h : ExtraKind k env.ctx ctx') (hinv : ctx' = .invalid ↔ env.ctx = .invalid)
+    (hk : k ≠ defaultKind)
+    (hF : ∀ fl ∈ env.store.flags.map (·.2), FlagIgnoresKind env.rx fl k)
+    (hS : ∀ s ∈ env.store.segments.map (·.2),
+      SegIgnoresKind env.rx s k ∧ ShortcutNeutral env.ctx ctx' s)
+    (f : Flag) (hf : FlagIgnoresKind env.rx f k) :
+    evaluate (withCtx env ctx') f = evaluate env f :=
+  evaluate_ctx (fun fl hfl => flagOK_of_ignores env h fl (hF fl hfl))
+    (fun s hs => segOK_of_ignores env h hk s (hS s hs).1 (hS s hs).2) f
+    (flagOK_of_ignores env h f hf) hinv
+
+/-- 7, multi-context form (no shortcut condition). -/
+theorem evaluate_unreferenced_kind_multi (env : Env) (cs : List SCtx) (extra : SCtx)
+    (hctx : env.ctx = .multi cs) (hk : extra.kind ≠ defaultKind)
+    (hF : ∀ fl ∈ env.store.flags.map (·.2), FlagIgnoresKind env.rx fl extra.kind)
+    (hS : ∀ s ∈ env.store.segments.map (·.2), SegIgnoresKind env.rx s extra.kind)
+    (f : Flag) (hf : FlagIgnoresKind env.rx f extra.kind) :
+    evaluate (withCtx env (.multi (cs ++ [extra]))) f = evaluate env f := by
+  have h : ExtraKind extra.kind env.ctx (.multi (cs ++ [extra])) := by
+    rw [hctx]; exact extraKind_multi cs extra
+  refine evaluate_unreferenced_kind env h (by rw [hctx]; simp) hk hF
+    (fun s hs => ⟨hS s hs, .inl ?_⟩) f hf
+  rw [hctx]; rfl
+
+/-- 7, single-context form: the original context is not of kind `user`, or no stored segment has a
+per-kind list for kind `user`. -/
+theorem evaluate_unreferenced_kind_single (env : Env) (sc extra : SCtx)
+    (hctx : env.ctx = .single sc) (hk : extra.kind ≠ defaultKind)
+    (hU : sc.kind ≠ defaultKind ∨ ∀ s ∈ env.store.segments.map (·.2),
+      (∀ t ∈ s.includedContexts, normKind t.contextKind ≠ defaultKind) ∧
+      (∀ t ∈ s.excludedContexts, normKind t.contextKind ≠ defaultKind))
+    (hF : ∀ fl ∈ env.store.flags.map (·.2), FlagIgnoresKind env.rx fl extra.kind)
+    (hS : ∀ s ∈ env.store.segments.map (·.2), SegIgnoresKind env.rx s extra.kind)
+    (f : Flag) (hf : FlagIgnoresKind env.rx f extra.kind) :
+    evaluate (withCtx env (.multi [sc, extra])) f = evaluate env f := by
+  have h : ExtraKind extra.kind env.ctx (.multi [sc, extra]) := by
+    rw [hctx]; exact extraKind_single sc extra
+  refine evaluate_unreferenced_kind env h (by rw [hctx]; simp) hk hF
+    (fun s hs => ⟨hS s hs, ?_⟩) f hf
+  rw [hctx]
+  by_cases hsc : sc.kind = defaultKind
+  · rcases hU with hU | hU
+    · exact absurd hsc hU
+    · exact .inr ⟨hsc, hU s hs⟩
+  · left
+    have h1 : (sc.kind == defaultKind) = false := by simpa using hsc
+    have h2 : ("multi" == defaultKind) = false := by decide
+    show ("multi" == defaultKind) = (sc.kind == defaultKind)
+    rw [h1, h2]
+
+/-! ### 2 at the entry point: appended rules -/
+
+/-- **2, entry point.**  Appending rules to a flag one of whose rules does not evaluate to "no
+match" (it matches, or it is malformed) changes nothing observable about `Evaluate` — result,
+status, `isExperiment` (which indexes the rule list), events, log lines, lookups, queries.  The
+hypothesis is about the Spec at the fuel `evaluate` uses; `evaluate_append_rules_of_kind` replaces it
+by a condition on the returned reason. -/
+theorem evaluate_append_rules (env : Env) (f : Flag) (extra : List FlagRule)
+    (h : ∃ r ∈ f.rules,
+      Spec.clausesMatch (Spec.segContains (segFuel env.store) env) env [] r.clauses ≠ .ok false) :
+    evaluate env { f with rules := f.rules ++ extra } = evaluate env f := by
+  apply evaluate_rules_eq
+  · intro st1 hc _
+    apply m_rulesLoop_append
+    intro hft
+    obtain ⟨r, hr, hne⟩ := h
+    exact hne (fallsThrough_spec (segContains_refines _ env) f.rules st1 hc hft r hr)
+  · intro i rule hr
+    have hi : i < f.rules.length := (List.getElem?_eq_some_iff.mp hr).1
+    rw [List.getElem?_append_left hi, hr]; rfl
+
+/-- **2, entry point, by the returned reason.**  If `Evaluate` answers OFF, TARGET_MATCH,
+PREREQUISITE_FAILED or RULE_MATCH — i.e. anything decided before the fallthrough; an ERROR may come
+from the fallthrough's rollout and is covered by `evaluate_append_rules` — then appending rules
+changes nothing observable. -/
+theorem evaluate_append_rules_of_kind (env : Env) (f : Flag) (extra : List FlagRule)
+    (hk : (evaluate env f).result.detail.reason.kind = .off ∨
+          (evaluate env f).result.detail.reason.kind = .targetMatch ∨
+          (evaluate env f).result.detail.reason.kind = .prereqFailed ∨
+          (evaluate env f).result.detail.reason.kind = .ruleMatch) :
+    evaluate env { f with rules := f.rules ++ extra } = evaluate env f := by
+  apply evaluate_rules_eq
+  · intro st1 _ hE
+    apply m_rulesLoop_append
+    intro hft
+    obtain ⟨d, st', hrl, hkind⟩ := fallsThrough_kind _ env f f.rules 0 st1 hft
+    rw [hrl] at hE
+    by_cases hc : env.ctx = .invalid
+    · rw [(evaluate_invalid f hc).2] at hk
+      simp [Detail.forError, Reason.error] at hk
+    · rcases evaluate_valid f hc hE with ⟨d1, ok1, h1, -, hd⟩ | ⟨h1, -⟩
+      · cases h1
+        rw [hd, withStatus_kind] at hk
+        rcases hkind with hkind | hkind <;> rw [hkind] at hk <;> simp at hk
+      · cases h1
+  · intro i rule hr
+    have hi : i < f.rules.length := (List.getElem?_eq_some_iff.mp hr).1
+    rw [List.getElem?_append_left hi, hr]; rfl
+
+/-! ### 4–5 at the entry point: observationally equivalent rules -/
+
+/-- **Equivalent rules.**  Replacing the rules of a flag one by one by rules with the same
+variation-or-rollout, id and track-events bit whose clauses evaluate alike (same answer, same effect
+on the per-call state, from every state) changes nothing observable about `Evaluate`. -/
+theorem evaluate_rules_equiv (env : Env) (f : Flag) (rules' : List FlagRule)
+    (h : List.Forall₂ (RuleEquiv (segContains (segFuel env.store) env) env) f.rules rules') :
+    evaluate env { f with rules := rules' } = evaluate env f := by
+  apply evaluate_rules_eq
+  · intro st1 _ _; exact m_rulesLoop_equiv _ env f h 0 st1
+  · intro i rule hr
+    rw [forall₂_getElem?_trackEvents h i, hr]; rfl
+
+theorem forall₂_same {α} {R : α → α → Prop} (hrefl : ∀ x, R x x) : ∀ l : List α, List.Forall₂ R l l
+  | [] => .nil
+  | x :: l => .cons (hrefl x) (forall₂_same hrefl l)
+
+theorem forall₂_replace {α} {R : α → α → Prop} (hrefl : ∀ x, R x x) (pre post : List α) {r r' : α}
+    (h : R r r') : List.Forall₂ R (pre ++ r :: post) (pre ++ r' :: post) := by
+  induction pre with
+  | nil => exact .cons h (forall₂_same hrefl post)
+  | cons x pre ih => exact .cons (hrefl x) ih
+
+/-- Replacing the clause list of one rule by one that evaluates alike. -/
+theorem evaluate_replace_clauses (env : Env) (f : Flag) (pre : List FlagRule) (r : FlagRule)
+    (post : List FlagRule) (cs' : List Clause) (hr : f.rules = pre ++ r :: post)
+    (h : ∀ st, clausesMatch (segContains (segFuel env.store) env) env [] cs' st =
+      clausesMatch (segContains (segFuel env.store) env) env [] r.clauses st) :
+    evaluate env { f with rules := pre ++ { r with clauses := cs' } :: post } = evaluate env f := by
+  apply evaluate_rules_equiv
+  rw [hr]
+  exact forall₂_replace (RuleEquiv.refl _ env) pre post ⟨rfl, rfl, rfl, h⟩
+
+theorem m_clauseMatch_perm_values (rec : LD.SegRec) (env : Env) (chain : List String) (c : Clause)
+    (vs' : List J) (hseg : c.op ≠ "segmentMatch") (hpre : c.pre = {}) (h : c.values.Perm vs')
+    (st : St) :
+    clauseMatch rec env chain { c with values := vs' } st = clauseMatch rec env chain c st := by
+  have hs : (c.op == "segmentMatch") = false := by simpa using hseg
+  simp only [clauseMatch, hs, Bool.false_eq_true, if_false,
+    perm_values_clause env.rx env.ctx c vs' hpre h]
+
+theorem m_clausesMatch_replace (rec : LD.SegRec) (env : Env) (chain : List String) (c c' : Clause)
+    (h : ∀ st, clauseMatch rec env chain c' st = clauseMatch rec env chain c st) :
+    ∀ (cpre cpost : List Clause) (st : St),
+      clausesMatch rec env chain (cpre ++ c' :: cpost) st =
+        clausesMatch rec env chain (cpre ++ c :: cpost) st := by
+  intro cpre
+  induction cpre with
+  | nil => intro cpost st; simp only [List.nil_append, clausesMatch, h]
+  | cons x cpre ih => intro cpost st; simp only [List.cons_append, clausesMatch, ih]
+
+/-- **4, entry point.**  Reordering the values of a plain (not preprocessed) non-segment clause of a
+rule of the evaluated flag changes nothing observable about `Evaluate`.  (`c.pre = {}`: compose with
+C14 for preprocessed clauses.  For a `segmentMatch` clause the value order IS observable: it is the
+order of the segment lookups and big-segment queries, and decides which error comes first.) -/
+theorem evaluate_perm_values (env : Env) (f : Flag) (pre : List FlagRule) (r : FlagRule)
+    (post : List FlagRule) (cpre : List Clause) (c : Clause) (cpost : List Clause) (vs' : List J)
+    (hr : f.rules = pre ++ r :: post) (hcl : r.clauses = cpre ++ c :: cpost)
+    (hseg : c.op ≠ "segmentMatch") (hpre : c.pre = {}) (h : c.values.Perm vs') :
+    evaluate env { f with rules :=
+      pre ++ { r with clauses := cpre ++ { c with values := vs' } :: cpost } :: post } =
+      evaluate env f := by
+  apply evaluate_replace_clauses env f pre r post _ hr
+  intro st
+  rw [hcl]
+  exact m_clausesMatch_replace _ env [] c _
+    (m_clauseMatch_perm_values _ env [] c vs' hseg hpre h) cpre cpost st
+
+/-- Clauses none of which is a segment match do not touch the per-call state, and their conjunction
+is the Spec's. -/
+theorem m_clausesMatch_pure (rec : LD.SegRec) (recS : Spec.SegRec) (env : Env) (chain : List String) :
+    ∀ cs, (∀ c ∈ cs, c.op ≠ "segmentMatch") → ∀ st,
+      clausesMatch rec env chain cs st = (Spec.clausesMatch recS env chain cs, st) := by
+  intro cs
+  induction cs with
+  | nil => intro _ st; rfl
+  | cons c cs ih =>
+    intro h st
+    have hs : (c.op == "segmentMatch") = false := by simpa using h c (List.mem_cons_self ..)
+    simp only [clausesMatch, Spec.clausesMatch, clauseMatch, Spec.clauseMatch, hs,
+      Bool.false_eq_true, if_false]
+    cases Res.ofExcept (clauseMatchNoSeg env.rx env.ctx c) with
+    | ok b =>
+      cases b with
+      | true => exact ih (fun c' hc' => h c' (List.mem_cons_of_mem _ hc')) st
+      | false => rfl
+    | err e => rfl
+    | oof => rfl
+
+/-- **5, entry point, rules without segment clauses.**  Reordering the clauses of a rule none of
+which is a `segmentMatch` and all of which evaluate without error changes nothing observable about
+`Evaluate`. -/
+theorem evaluate_perm_clauses_pure (env : Env) (f : Flag) (pre : List FlagRule) (r : FlagRule)
+    (post : List FlagRule) (cs' : List Clause) (hr : f.rules = pre ++ r :: post)
+    (h : r.clauses.Perm cs')
+    (hpure : ∀ c ∈ r.clauses, c.op ≠ "segmentMatch" ∧
+      ∃ b, clauseMatchNoSeg env.rx env.ctx c = .ok b) :
+    evaluate env { f with rules := pre ++ { r with clauses := cs' } :: post } = evaluate env f := by
+  apply evaluate_replace_clauses env f pre r post _ hr
+  intro st
+  rw [m_clausesMatch_pure _ (Spec.segContains 0 env) env [] cs'
+      (fun c hc => (hpure c (h.mem_iff.mpr hc)).1) st,
+    m_clausesMatch_pure _ (Spec.segContains 0 env) env [] r.clauses (fun c hc => (hpure c hc).1) st,
+    perm_clauses _ env [] r.clauses cs' h]
+  intro c hc
+  obtain ⟨hseg, b, hb⟩ := hpure c hc
+  have hs : (c.op == "segmentMatch") = false := by simpa using hseg
+  exact ⟨b, by simp only [Spec.clauseMatch, hs, Bool.false_eq_true, if_false, hb, Res.ofExcept]⟩
+
+/-! ### 3 at the entry point: an inserted never-matching rule -/
+
+/-- `shiftFrom` on a model outcome together with its final state (which is left alone). -/
+def shiftOut (k : Nat) (x : FlagOut × St) : FlagOut × St :=
+  (match x.1 with | .done d ok => .done (shiftDetail k d) ok | .oof => .oof, x.2)
+
+theorem m_getVariation_shift (k : Nat) (env : Env) (f : Flag) (i : Int) (r : Reason) (st : St) :
+    LD.getVariation env f i (shiftReason k r) st =
+      (shiftDetail k (LD.getVariation env f i r st).1, (LD.getVariation env f i r st).2) := by
+  unfold LD.getVariation
+  split
+  · simp only [shiftDetail_forError]
+  · rfl
+
+theorem m_getValueForVR_shift (k : Nat) (env : Env) (f : Flag) (vr : VariationOrRollout)
+    (r : Reason) (st : St) :
+    LD.getValueForVR env f vr (shiftReason k r) st =
+      (shiftDetail k (LD.getValueForVR env f vr r st).1, (LD.getValueForVR env f vr r st).2) := by
+  unfold LD.getValueForVR
+  cases variationOrRollout env vr f.key f.salt with
+  | error e => simp only [shiftDetail_forError]
+  | ok p =>
+    obtain ⟨idx, inExp⟩ := p
+    simp only []
+    cases inExp
+    · exact m_getVariation_shift k env f idx r st
+    · simp only [if_true, ← shiftReason_toExperiment]
+      exact m_getVariation_shift k env f idx _ st
+
+theorem m_rulesLoop_succ (seg : LD.SegRec) (env : Env) (f : Flag) (post : List FlagRule) :
+    ∀ i k st, k ≤ i →
+      LD.rulesLoop seg env f post (i + 1) st = shiftOut k (LD.rulesLoop seg env f post i st) := by
+  induction post with
+  | nil =>
+    intro i k st _
+    have h := m_getValueForVR_shift k env f f.fallthrough .fallthrough st
+    rw [shiftReason_fallthrough] at h
+    have h1 : (LD.getValueForVR env f f.fallthrough .fallthrough st).1 =
+        shiftDetail k (LD.getValueForVR env f f.fallthrough .fallthrough st).1 :=
+      congrArg Prod.fst h
+    simp only [LD.rulesLoop, shiftOut]
+    rw [← h1]
+  | cons r rs ih =>
+    intro i k st hk
+    simp only [LD.rulesLoop]
+    generalize LD.clausesMatch seg env [] r.clauses st = q
+    obtain ⟨res, st1⟩ := q
+    cases res with
+    | err e => simp only [shiftOut, shiftDetail_forError]
+    | oof => rfl
+    | ok b =>
+      cases b with
+      | true =>
+        have h := m_getValueForVR_shift k env f r.vr (.ruleMatch i r.id) st1
+        rw [shiftReason_ruleMatch_ge k i r.id hk] at h
+        simp only [shiftOut]
+        rw [h]
+      | false => exact ih (i + 1) k st1 (by omega)
+
+/-- Model level: a rule whose clauses always say "no match" and leave the per-call state alone can
+be inserted anywhere; only the reported index of a later matching rule moves. -/
+theorem m_insert_dead_rule (seg : LD.SegRec) (env : Env) (f : Flag) (pre post : List FlagRule)
+    (dead : FlagRule)
+    (hdead : ∀ st, LD.clausesMatch seg env [] dead.clauses st = (.ok false, st)) :
+    ∀ i st, LD.rulesLoop seg env f (pre ++ dead :: post) i st =
+      shiftOut (i + pre.length) (LD.rulesLoop seg env f (pre ++ post) i st) := by
+  induction pre with
+  | nil =>
+    intro i st
+    simp only [List.nil_append, LD.rulesLoop, hdead, List.length_nil, Nat.add_zero]
+    exact m_rulesLoop_succ seg env f post i i st (Nat.le_refl _)
+  | cons q pre ih =>
+    intro i st
+    simp only [List.cons_append, LD.rulesLoop, List.length_cons]
+    generalize LD.clausesMatch seg env [] q.clauses st = x
+    obtain ⟨res, st1⟩ := x
+    cases res with
+    | err e => simp only [shiftOut, shiftDetail_forError]
+    | oof => rfl
+    | ok b =>
+      cases b with
+      | true =>
+        have h := m_getValueForVR_shift (i + (pre.length + 1)) env f q.vr (.ruleMatch i q.id) st1
+        rw [shiftReason_ruleMatch_lt (i + (pre.length + 1)) i q.id (by omega)] at h
+        have h1 : (LD.getValueForVR env f q.vr (.ruleMatch i q.id) st1).1 =
+            shiftDetail (i + (pre.length + 1)) (LD.getValueForVR env f q.vr (.ruleMatch i q.id) st1).1 :=
+          congrArg Prod.fst h
+        simp only [shiftOut]
+        rw [← h1]
+      | false =>
+        simp only []
+        rw [ih (i + 1) st1]
+        congr 1
+        omega
+
+theorem shiftReason_status (k : Nat) (r : Reason) (s : Option Status) :
+    shiftReason k { r with bigSegmentsStatus := s } =
+      { shiftReason k r with bigSegmentsStatus := s } := by
+  unfold shiftReason
+  split <;> rfl
+
+theorem shiftDetail_of_not_ruleMatch (k : Nat) (d : Detail) (h : d.reason.kind ≠ .ruleMatch) :
+    shiftDetail k d = d := by
+  have : ¬ (d.reason.kind = .ruleMatch ∧ d.reason.ruleIndex ≥ k) := fun h' => h h'.1
+  simp only [shiftDetail, shiftReason, if_neg this]
+
+/-- `isExperiment` follows the shift: the shifted index in the longer list names the same rule. -/
+theorem isExperimentResult_insert (f : Flag) (pre post : List FlagRule) (dead : FlagRule)
+    (hr : f.rules = pre ++ post) (r : Reason) :
+    isExperimentResult { f with rules := pre ++ dead :: post } (shiftReason pre.length r) =
+      isExperimentResult f r := by
+  by_cases hc : r.kind = .ruleMatch ∧ r.ruleIndex ≥ pre.length
+  · obtain ⟨hk, hi⟩ := hc
+    have hs : shiftReason pre.length r = { r with ruleIndex := r.ruleIndex + 1 } := by
+      simp only [shiftReason, hk, hi, and_self, if_true]
+    rw [hs]
+    unfold isExperimentResult
+    simp only [hk, hr]
+    have h0 : r.ruleIndex ≥ 0 := by omega
+    have h1 : r.ruleIndex + 1 ≥ 0 := by omega
+    simp only [h0, h1, if_true]
+    have e1 : (r.ruleIndex + 1).toNat = r.ruleIndex.toNat + 1 := by omega
+    have e2 : pre.length ≤ r.ruleIndex.toNat := by omega
+    rw [e1, List.getElem?_append_right (by omega), List.getElem?_append_right e2]
+    have e3 : r.ruleIndex.toNat + 1 - pre.length = (r.ruleIndex.toNat - pre.length) + 1 := by omega
+    rw [e3, List.getElem?_cons_succ]
+  · have hs : shiftReason pre.length r = r := by simp only [shiftReason, if_neg hc]
+    rw [hs]
+    unfold isExperimentResult
+    split
+    · rfl
+    · cases hk : r.kind <;> simp only []
+      split
+      · rename_i h0
+        have hlt : r.ruleIndex.toNat < pre.length := by
+          have : ¬ r.ruleIndex ≥ pre.length := fun h => hc ⟨hk, h⟩
+          omega
+        rw [hr, List.getElem?_append_left hlt, List.getElem?_append_left hlt]
+      · rfl
+
+/-- `finish` commutes with the shift when the experiment bit does. -/
+theorem finish_shiftOut (f f' : Flag) (k : Nat) (x : FlagOut × St)
+    (hexp : ∀ r, isExperimentResult f' (shiftReason k r) = isExperimentResult f r) :
+    (finish f' (shiftOut k x).1 (shiftOut k x).2).result.detail =
+      shiftDetail k (finish f x.1 x.2).result.detail ∧
+    (finish f' (shiftOut k x).1 (shiftOut k x).2).result.isExperiment =
+      (finish f x.1 x.2).result.isExperiment ∧
+    (finish f' (shiftOut k x).1 (shiftOut k x).2).outcome = (finish f x.1 x.2).outcome ∧
+    (finish f' (shiftOut k x).1 (shiftOut k x).2).events = (finish f x.1 x.2).events ∧
+    (finish f' (shiftOut k x).1 (shiftOut k x).2).logs = (finish f x.1 x.2).logs ∧
+    (finish f' (shiftOut k x).1 (shiftOut k x).2).flagLookups = (finish f x.1 x.2).flagLookups ∧
+    (finish f' (shiftOut k x).1 (shiftOut k x).2).segLookups = (finish f x.1 x.2).segLookups ∧
+    (finish f' (shiftOut k x).1 (shiftOut k x).2).bsQueries = (finish f x.1 x.2).bsQueries ∧
+    (finish f' (shiftOut k x).1 (shiftOut k x).2).memChecks = (finish f x.1 x.2).memChecks := by
+  obtain ⟨out, st⟩ := x
+  cases out with
+  | oof =>
+    refine ⟨?_, ?_, rfl, rfl, rfl, rfl, rfl, rfl, rfl⟩
+    · show (finish f' .oof st).result.detail = shiftDetail k (finish f .oof st).result.detail
+      unfold finish
+      cases st.status
+      · exact (shiftDetail_forError _ _).symm
+      · simp [shiftDetail, shiftReason, Detail.forError, Reason.error]
+    · show (finish f' .oof st).result.isExperiment = (finish f .oof st).result.isExperiment
+      unfold finish
+      cases st.status <;> rfl
+  | done d ok =>
+    refine ⟨?_, ?_, rfl, rfl, rfl, rfl, rfl, rfl, rfl⟩
+    · show (finish f' (.done (shiftDetail k d) ok) st).result.detail =
+        shiftDetail k (finish f (.done d ok) st).result.detail
+      unfold finish
+      cases st.status with
+      | none => rfl
+      | some s => simp only [shiftDetail, shiftReason_status]
+    · show (finish f' (.done (shiftDetail k d) ok) st).result.isExperiment =
+        (finish f (.done d ok) st).result.isExperiment
+      unfold finish
+      cases st.status with
+      | none => exact hexp d.reason
+      | some s =>
+        have := hexp { d.reason with bigSegmentsStatus := some s }
+        rw [shiftReason_status] at this
+        exact this
+
+/-- **3, entry point.**  Inserting, anywhere in the rule list, a rule that never matches and whose
+clauses leave the per-call state alone (e.g. any rule without `segmentMatch` clauses that evaluates
+to "no match", see `m_clausesMatch_pure` and `in_empty_never_matches`) changes only the reported rule
+index — by `shiftDetail`: +1 for a RULE_MATCH at or after the insertion point, nothing else.  The
+value, the variation index, every other field of the reason INCLUDING the big-segments status,
+`isExperiment`, the events, log lines, lookups, queries and membership checks are unchanged.  (A
+dead rule WITH segment clauses does add lookups and possibly a status: for it only
+`evaluate_insert_dead_rule_result` holds.) -/
+theorem evaluate_insert_dead_rule (env : Env) (f : Flag) (pre post : List FlagRule)
+    (dead : FlagRule) (hr : f.rules = pre ++ post)
+    (hdead : ∀ st, LD.clausesMatch (segContains (segFuel env.store) env) env [] dead.clauses st =
+      (.ok false, st)) :
+    (evaluate env { f with rules := pre ++ dead :: post }).result.detail =
+      shiftDetail pre.length (evaluate env f).result.detail ∧
+    (evaluate env { f with rules := pre ++ dead :: post }).result.isExperiment =
+      (evaluate env f).result.isExperiment ∧
+    (evaluate env { f with rules := pre ++ dead :: post }).outcome = (evaluate env f).outcome ∧
+    (evaluate env { f with rules := pre ++ dead :: post }).events = (evaluate env f).events ∧
+    (evaluate env { f with rules := pre ++ dead :: post }).logs = (evaluate env f).logs ∧
+    (evaluate env { f with rules := pre ++ dead :: post }).flagLookups =
+      (evaluate env f).flagLookups ∧
+    (evaluate env { f with rules := pre ++ dead :: post }).segLookups =
+      (evaluate env f).segLookups ∧
+    (evaluate env { f with rules := pre ++ dead :: post }).bsQueries = (evaluate env f).bsQueries ∧
+    (evaluate env { f with rules := pre ++ dead :: post }).memChecks = (evaluate env f).memChecks := by
+  by_cases hc : env.ctx = .invalid
+  · unfold evaluate
+    simp only [hc]
+    refine ⟨(shiftDetail_forError _ _).symm, ?_⟩
+    simp
+  · rw [evaluate_eq_finish env _ hc, evaluate_eq_finish env f hc]
+    have hE : evalFlag (segFuel env.store) (flagFuel env.store) env
+          { f with rules := pre ++ dead :: post } [] {} =
+        shiftOut pre.length (evalFlag (segFuel env.store) (flagFuel env.store) env f [] {}) := by
+      show LD.evalBody (evalFlag (segFuel env.store) _ env) (segContains (segFuel env.store) env) env
+          { f with rules := pre ++ dead :: post } [] {} =
+        shiftOut pre.length (LD.evalBody (evalFlag (segFuel env.store) _ env)
+          (segContains (segFuel env.store) env) env f [] {})
+      apply m_evalBody_rules (R := fun x y => x = shiftOut pre.length y)
+      · intro x hx
+        obtain ⟨out, st⟩ := x
+        cases out with
+        | oof => rfl
+        | done d ok =>
+          simp only [shiftOut, shiftDetail_of_not_ruleMatch _ d (hx d ok rfl)]
+      · intro _ _ _
+        rw [hr, m_insert_dead_rule _ env f pre post dead hdead 0 _, Nat.zero_add]
+    rw [hE]
+    exact finish_shiftOut f _ pre.length _ (isExperimentResult_insert f pre post dead hr)
+
+/-! ### 3 and 5 in general (rules WITH segment clauses): what is invariant and what is not
+
+A rule with `segmentMatch` clauses reads the store and possibly the big-segment provider while it is
+evaluated.  Moving a clause past a short-circuiting one, or inserting a never-matching rule that
+consults a segment, therefore changes `segLookups`, `bsQueries`, `memChecks` and — open finding F6 —
+the `bigSegmentsStatus` annotation of the reason (`clause_order_observable` below is a
+machine-checked instance).  What IS invariant: value, variation index, every reason field except
+that annotation, and `isExperiment`. -/
+
+/-- Spec analogue of `m_evalBody_rules`. -/
+theorem evalBody_rules {R : Option (Detail × Bool) → Option (Detail × Bool) → Prop}
+    (hrefl : ∀ x : Option (Detail × Bool),
+      (∀ d ok, x = some (d, ok) → d.reason.kind ≠ .ruleMatch) → R x x)
+    (rec : Spec.FlagRec) (seg : Spec.SegRec) (env : Env) (f : Flag) (rules' : List FlagRule)
+    (chain : List String)
+    (h : f.on = true → Spec.checkPrereqs rec env f chain = .ok → anyTargetMatch env.ctx f = none →
+      R (Spec.rulesLoop seg env f rules' 0) (Spec.rulesLoop seg env f f.rules 0)) :
+    R (Spec.evalBody rec seg env { f with rules := rules' } chain)
+      (Spec.evalBody rec seg env f chain) := by
+  unfold Spec.evalBody
+  simp only [rulesLoop_rules_irrelevant]
+  show R (if !f.on then _ else
+    match Spec.checkPrereqs rec env f chain with
+    | .oof => _ | .malformed => _ | .failed k => _
+    | .ok => (match anyTargetMatch env.ctx f with | some v => _ | none => _)) _
+  cases hon : f.on with
+  | false =>
+    apply hrefl
+    intro d ok hd
+    simp only [Bool.not_false, if_true, Option.some.injEq, Prod.mk.injEq] at hd
+    rw [← hd.1]
+    exact getOffValue_kind_ne_ruleMatch f _ (by decide)
+  | true =>
+    simp only [Bool.not_true, Bool.false_eq_true, if_false]
+    have h' := h hon
+    revert h'
+    generalize Spec.checkPrereqs rec env f chain = q
+    intro h'
+    cases q with
+    | oof => exact hrefl _ (by intro d ok hd; cases hd)
+    | malformed =>
+      apply hrefl
+      intro d ok hd
+      simp only [Option.some.injEq, Prod.mk.injEq] at hd
+      rw [← hd.1]; decide
+    | failed k =>
+      apply hrefl
+      intro d ok hd
+      simp only [Option.some.injEq, Prod.mk.injEq] at hd
+      rw [← hd.1]
+      exact getOffValue_kind_ne_ruleMatch f _ (by simp [Reason.prereqFailed])
+    | ok =>
+      cases ht : anyTargetMatch env.ctx f with
+      | some v =>
+        apply hrefl
+        intro d ok hd
+        simp only [Option.some.injEq, Prod.mk.injEq] at hd
+        rw [← hd.1]
+        exact getVariation_kind_ne_ruleMatch f _ _ (by decide)
+      | none => exact h' rfl ht
+
+theorem evaluate_isExperiment' (env : Env) (f : Flag) :
+    (evaluate env f).result.isExperiment =
+      isExperimentResult f (evaluate env f).result.detail.reason := by
+  unfold evaluate
+  split <;> rfl
+
+/-- **Transfer of a Spec-level relation to the result of `evaluate`.**  If the Spec result of `f'`
+is that of `f` with the reason transformed by `TR` (which commutes with the status annotation and
+with `isExperiment`), then so is `evaluate`'s result up to the big-segments status annotation, and
+`isExperiment` is the same. -/
+theorem evaluate_result_of_spec (env : Env) (f f' : Flag) (TR : Reason → Reason)
+    (hTR : ∀ r s, TR { r with bigSegmentsStatus := s } = { TR r with bigSegmentsStatus := s })
+    (hTe : TR (Reason.error .userNotSpecified) = Reason.error .userNotSpecified)
+    (hexp : ∀ r, isExperimentResult f' (TR r) = isExperimentResult f r)
+    (hs : ∀ d ok, Spec.evalFlag (segFuel env.store) (flagFuel env.store) env f [] = some (d, ok) →
+      Spec.evalFlag (segFuel env.store) (flagFuel env.store) env f' [] =
+        some ({ d with reason := TR d.reason }, ok)) :
+    noStatus (evaluate env f').result.detail =
+      noStatus { (evaluate env f).result.detail with
+        reason := TR (evaluate env f).result.detail.reason } ∧
+    (evaluate env f').result.isExperiment = (evaluate env f).result.isExperiment := by
+  have h1 := evaluate_noStatus_of_spec env f f' (fun d => { d with reason := TR d.reason })
+    (by intro d s; cases s
+        · rfl
+        · show noStatus { d with reason := TR { d.reason with bigSegmentsStatus := some _ } } = _
+          rw [hTR]; rfl)
+    (by simp only [Detail.forError, hTe]) hs
+  refine ⟨h1, ?_⟩
+  rw [evaluate_isExperiment', evaluate_isExperiment', ← isExperimentResult_noStatusR f',
+    ← hexp (evaluate env f).result.detail.reason, ← isExperimentResult_noStatusR f' (TR _)]
+  have h2 := congrArg Detail.reason h1
+  simp only [noStatus] at h2
+  rw [h2]
+
+theorem rulesLoop_replace_clauses (seg : Spec.SegRec) (env : Env) (f : Flag) (r : FlagRule)
+    (cs' : List Clause) (post : List FlagRule)
+    (h : Spec.clausesMatch seg env [] cs' = Spec.clausesMatch seg env [] r.clauses) :
+    ∀ (pre : List FlagRule) (i : Nat),
+      Spec.rulesLoop seg env f (pre ++ { r with clauses := cs' } :: post) i =
+        Spec.rulesLoop seg env f (pre ++ r :: post) i := by
+  intro pre
+  induction pre with
+  | nil => intro i; simp only [List.nil_append, Spec.rulesLoop, h]
+  | cons q pre ih => intro i; simp only [List.cons_append, Spec.rulesLoop, ih]
+
+theorem map_trackEvents_getElem? (l l' : List FlagRule)
+    (h : l'.map (·.trackEvents) = l.map (·.trackEvents)) (i : Nat) :
+    (l'[i]?).map (·.trackEvents) = (l[i]?).map (·.trackEvents) := by
+  rw [← List.getElem?_map, ← List.getElem?_map, h]
+
+/-- **5, entry point, any clauses.**  Reordering the clauses of a rule all of which evaluate without
+error (segment-match clauses included) leaves the value, the variation index, the reason up to its
+`bigSegmentsStatus` annotation, and `isExperiment` of `Evaluate` unchanged.  NOT invariant in
+general: the annotation itself, the segment lookups, the big-segment queries and membership checks
+(F6, `clause_order_observable`); when the rule has no segment clause everything is invariant
+(`evaluate_perm_clauses_pure`). -/
+theorem evaluate_perm_clauses_result (env : Env) (f : Flag) (pre : List FlagRule) (r : FlagRule)
+    (post : List FlagRule) (cs' : List Clause) (hr : f.rules = pre ++ r :: post)
+    (h : r.clauses.Perm cs')
+    (hok : ∀ c ∈ r.clauses, ∃ b,
+      Spec.clauseMatch (Spec.segContains (segFuel env.store) env) env [] c = .ok b) :
+    noStatus (evaluate env { f with rules := pre ++ { r with clauses := cs' } :: post }).result.detail =
+      noStatus (evaluate env f).result.detail ∧
+    (evaluate env { f with rules := pre ++ { r with clauses := cs' } :: post }).result.isExperiment =
+      (evaluate env f).result.isExperiment := by
+  refine evaluate_result_of_spec env f _ id (fun _ _ => rfl) rfl ?_ ?_
+  · intro rs
+    apply isExperimentResult_rules
+    intro _ _
+    apply map_trackEvents_getElem?
+    rw [hr]; simp
+  · intro d ok hd
+    have : Spec.evalFlag (segFuel env.store) (flagFuel env.store) env
+          { f with rules := pre ++ { r with clauses := cs' } :: post } [] =
+        Spec.evalFlag (segFuel env.store) (flagFuel env.store) env f [] := by
+      show Spec.evalBody _ _ env _ [] = Spec.evalBody _ _ env f []
+      apply evalBody_rules (R := Eq) (fun _ _ => rfl)
+      intro _ _ _
+      rw [hr]
+      exact rulesLoop_replace_clauses _ env f r cs' post
+        (perm_clauses _ env [] r.clauses cs' h hok) pre 0
+    rw [this, hd]
+    rfl
+
+/-- **3, entry point, any dead rule.**  Inserting a rule that the Spec evaluates to "no match"
+(segment clauses allowed) changes, of `Evaluate`'s result, only the reported rule index
+(`shiftReason`) and possibly the `bigSegmentsStatus` annotation; value, variation index, the other
+reason fields and `isExperiment` are unchanged.  With a dead rule that does not touch the state
+everything else is unchanged too (`evaluate_insert_dead_rule`). -/
+theorem evaluate_insert_dead_rule_result (env : Env) (f : Flag) (pre post : List FlagRule)
+    (dead : FlagRule) (hr : f.rules = pre ++ post)
+    (hdead : Spec.clausesMatch (Spec.segContains (segFuel env.store) env) env [] dead.clauses =
+      .ok false) :
+    noStatus (evaluate env { f with rules := pre ++ dead :: post }).result.detail =
+      noStatus (shiftDetail pre.length (evaluate env f).result.detail) ∧
+    (evaluate env { f with rules := pre ++ dead :: post }).result.isExperiment =
+      (evaluate env f).result.isExperiment := by
+  refine evaluate_result_of_spec env f _ (shiftReason pre.length) (shiftReason_status _) ?_
+    (isExperimentResult_insert f pre post dead hr) ?_
+  · simp [shiftReason, Reason.error]
+  · intro d ok hd
+    have : Spec.evalFlag (segFuel env.store) (flagFuel env.store) env
+          { f with rules := pre ++ dead :: post } [] =
+        shiftFrom pre.length
+          (Spec.evalFlag (segFuel env.store) (flagFuel env.store) env f []) := by
+      show Spec.evalBody _ _ env _ [] = shiftFrom pre.length (Spec.evalBody _ _ env f [])
+      apply evalBody_rules (R := fun x y => x = shiftFrom pre.length y)
+      · intro x hx
+        cases x with
+        | none => rfl
+        | some p => exact (shiftFrom_of_not_ruleMatch _ p.1 p.2 (.inl (hx p.1 p.2 rfl))).symm
+      · intro _ _ _
+        rw [hr, insert_dead_rule _ env f pre post dead 0 hdead, Nat.zero_add]
+    rw [this, hd]
+    rfl
+
+/-! ### The rule list never influences prerequisite events or flag lookups -/
+
+theorem logErr_events (env : Env) (k : String) (e : EvalErr) (st : St) :
+    (logErr env k e st).events = st.events := by
+  unfold logErr; split <;> rfl
+
+theorem m_getVariation_frame (env : Env) (f : Flag) (i : Int) (r : Reason) (st : St) :
+    (LD.getVariation env f i r st).2.events = st.events ∧
+    (LD.getVariation env f i r st).2.flagLookups = st.flagLookups := by
+  unfold LD.getVariation
+  split
+  · exact ⟨logErr_events .., logErr_flagLookups ..⟩
+  · exact ⟨rfl, rfl⟩
+
+theorem m_getValueForVR_frame (env : Env) (f : Flag) (vr : VariationOrRollout) (r : Reason)
+    (st : St) :
+    (LD.getValueForVR env f vr r st).2.events = st.events ∧
+    (LD.getValueForVR env f vr r st).2.flagLookups = st.flagLookups := by
+  unfold LD.getValueForVR
+  cases variationOrRollout env vr f.key f.salt with
+  | error e => exact ⟨logErr_events .., logErr_flagLookups ..⟩
+  | ok p => exact m_getVariation_frame ..
+
+/-- The rule loop records no event and looks up no flag. -/
+theorem m_rulesLoop_frame {seg : LD.SegRec} {env : Env} (hseg : SegRecS env seg) (f : Flag) :
+    ∀ rs i st, (LD.rulesLoop seg env f rs i st).2.events = st.events ∧
+      (LD.rulesLoop seg env f rs i st).2.flagLookups = st.flagLookups := by
+  intro rs
+  induction rs with
+  | nil => intro i st; exact m_getValueForVR_frame ..
+  | cons r rs ih =>
+    intro i st
+    simp only [LD.rulesLoop]
+    have hf := star_sprim_frame (clausesMatch_sreach hseg [] r.clauses st)
+    revert hf
+    generalize LD.clausesMatch seg env [] r.clauses st = q
+    obtain ⟨res, st1⟩ := q
+    intro hf
+    cases res with
+    | err e => exact ⟨(logErr_events ..).trans hf.2.2, (logErr_flagLookups ..).trans hf.2.1⟩
+    | oof => exact ⟨hf.2.2, hf.2.1⟩
+    | ok b =>
+      cases b with
+      | true =>
+        have h := m_getValueForVR_frame env f r.vr (.ruleMatch i r.id) st1
+        exact ⟨h.1.trans hf.2.2, h.2.trans hf.2.1⟩
+      | false =>
+        have h := ih (i + 1) st1
+        exact ⟨h.1.trans hf.2.2, h.2.trans hf.2.1⟩
+
+theorem finish_events (f : Flag) (out : FlagOut) (st : St) : (finish f out st).events = st.events := by
+  cases out <;> rfl
+
+/-- **Any change of the evaluated flag's rule list** — reordered clauses with segment matches,
+inserted or appended rules of any kind — leaves the prerequisite events, the flag lookups and the
+outcome of `Evaluate` unchanged: prerequisites are evaluated before the rules, and rules never
+evaluate flags.  Together with `evaluate_perm_clauses_result` / `evaluate_insert_dead_rule_result`
+this is the complete list of invariant components in the general case (segment lookups, queries,
+membership checks and the status annotation are not invariant: `clause_order_observable`; log
+lines are not invariant under arbitrary changes, and are not treated for reorderings). -/
+theorem evaluate_rules_events (env : Env) (f : Flag) (rules' : List FlagRule) :
+    (evaluate env { f with rules := rules' }).events = (evaluate env f).events ∧
+    (evaluate env { f with rules := rules' }).flagLookups = (evaluate env f).flagLookups ∧
+    (evaluate env { f with rules := rules' }).outcome = (evaluate env f).outcome := by
+  refine ⟨?_, ?_, by rw [evaluate_total, evaluate_total]⟩ <;>
+  · by_cases hc : env.ctx = .invalid
+    · unfold evaluate
+      simp only [hc]
+    · rw [evaluate_eq_finish env _ hc, evaluate_eq_finish env f hc]
+      have hE : (evalFlag (segFuel env.store) (flagFuel env.store) env
+            { f with rules := rules' } [] {}).2.events =
+          (evalFlag (segFuel env.store) (flagFuel env.store) env f [] {}).2.events ∧
+          (evalFlag (segFuel env.store) (flagFuel env.store) env
+            { f with rules := rules' } [] {}).2.flagLookups =
+          (evalFlag (segFuel env.store) (flagFuel env.store) env f [] {}).2.flagLookups := by
+        show (LD.evalBody (evalFlag (segFuel env.store) _ env) (segContains (segFuel env.store) env)
+            env { f with rules := rules' } [] {}).2.events =
+          (LD.evalBody (evalFlag (segFuel env.store) _ env) (segContains (segFuel env.store) env)
+            env f [] {}).2.events ∧ _
+        apply m_evalBody_rules
+          (R := fun x y => x.2.events = y.2.events ∧ x.2.flagLookups = y.2.flagLookups)
+          (fun _ _ => ⟨rfl, rfl⟩)
+        intro _ _ _
+        have h1 := m_rulesLoop_frame (segContains_sreach (segFuel env.store) env) f rules' 0
+        have h2 := m_rulesLoop_frame (segContains_sreach (segFuel env.store) env) f f.rules 0
+        exact ⟨(h1 _).1.trans (h2 _).1.symm, (h1 _).2.trans (h2 _).2.symm⟩
+      first
+        | (rw [finish_events, finish_events]; exact hE.1)
+        | (rw [finish_flagLookups, finish_flagLookups]; exact hE.2)
+
+/-! ### Non-vacuity and counterexamples at the entry point -/
+
+section AuditExamples
+
+/-- A store with an unbounded segment `big` (generation 1) and a regular segment `s`. -/
+def bigSeg : Segment := { key := "big", unbounded := true, generation := some 1 }
+
+/-- The provider answers every key with "no membership, status STALE". -/
+def auditEnv : Env :=
+  { opts := { logger := true }, store := { segments := [("big", bigSeg), ("s", exSeg)] },
+    bs := some { dflt := { status := some .stale } },
+    ctx := .single exUser, rx := fun _ _ => none }
+
+def segClause : Clause := { op := "segmentMatch", values := [.str "big"] }
+def kindClause : Clause := { attr := Ref.newRef "kind", op := "in", values := [.str "user"] }
+def keyClause : Clause := { attr := Ref.newRef "key", op := "in", values := [.str "j", .str "k"] }
+
+/-- An on flag with two variations whose single rule has the given clauses. -/
+def ruleFlag (cs : List Clause) : Flag :=
+  { key := "f", on := true, variations := [.bool false, .bool true],
+    fallthrough := { variation := some 0 },
+    rules := [{ id := "r", clauses := cs, vr := { variation := some 1 }, trackEvents := true }] }
+
+/-- **F6, machine-checked.**  Both clauses evaluate without error (`email in []` is false, the
+segment clause is false); with the dead clause first the segment clause is never reached, swapped it
+is: same value, index, reason kind and `isExperiment`, but the reason gains
+`bigSegmentsStatus = STALE` and the segment lookup, the provider query differ.  So the full-`Obs`
+form of clause-order invariance is false; `evaluate_perm_clauses_result` is the strongest true
+form.  Go input: a rule `[{attribute:"email", op:"in", values:[]}, {op:"segmentMatch",
+values:["big"]}]` vs. the same clauses swapped, `big` unbounded, provider status STALE. -/
+theorem clause_order_observable :
+    (evaluate auditEnv (ruleFlag [deadClause, segClause])).result.detail.reason.bigSegmentsStatus
+      = none ∧
+    (evaluate auditEnv (ruleFlag [segClause, deadClause])).result.detail.reason.bigSegmentsStatus
+      = some .stale ∧
+    (evaluate auditEnv (ruleFlag [deadClause, segClause])).segLookups = [] ∧
+    (evaluate auditEnv (ruleFlag [segClause, deadClause])).segLookups = ["big"] ∧
+    (evaluate auditEnv (ruleFlag [deadClause, segClause])).bsQueries = [] ∧
+    (evaluate auditEnv (ruleFlag [segClause, deadClause])).bsQueries = ["k"] ∧
+    (evaluate auditEnv (ruleFlag [deadClause, segClause])).result.detail.reason.kind = .fallthrough ∧
+    (evaluate auditEnv (ruleFlag [segClause, deadClause])).result.detail.reason.kind = .fallthrough := by
+  decide +kernel
+
+/-- The same pair as a refutation of the full-observation form. -/
+example : evaluate auditEnv (ruleFlag [segClause, deadClause]) ≠
+    evaluate auditEnv (ruleFlag [deadClause, segClause]) := by
+  intro h
+  have := congrArg Obs.bsQueries h
+  revert this
+  decide +kernel
+
+/-- Likewise a dead rule WITH a segment clause, inserted before the deciding rule, is observable in
+the queries (so `evaluate_insert_dead_rule` needs its state-neutrality hypothesis). -/
+example :
+    (evaluate auditEnv (ruleFlag [kindClause])).bsQueries = [] ∧
+    (evaluate auditEnv { ruleFlag [kindClause] with
+      rules := { clauses := [segClause] } :: (ruleFlag [kindClause]).rules }).bsQueries = ["k"] := by
+  decide +kernel
+
+/-- `shortcut_observable`: the `ShortcutNeutral` hypothesis of `evaluate_unreferenced_kind` cannot be
+dropped at the entry point either.  Segment `s` has a per-kind list for kind `user`; the single
+`user` context skips it (FALLTHROUGH), the same context plus an unrelated `org` context reads it
+(RULE_MATCH). -/
+theorem shortcut_observable :
+    (evaluate auditEnv (ruleFlag [{ op := "segmentMatch", values := [.str "s"] }])
+      ).result.detail.reason.kind = .fallthrough ∧
+    (evaluate (withCtx auditEnv (.multi [exUser, exOrg]))
+      (ruleFlag [{ op := "segmentMatch", values := [.str "s"] }])).result.detail.reason.kind =
+      .ruleMatch := by
+  decide +kernel
+
+/-- Hypotheses of `evaluate_unreferenced_attribute` on a concrete configuration: the flag tests
+`key`, the stored segments have no rules, the added attribute is `plan`. -/
+example (v : J) :
+    evaluate (withCtx auditEnv (mapInd (addAttrTo "user" "plan" v) auditEnv.ctx))
+      (ruleFlag [keyClause, segClause]) = evaluate auditEnv (ruleFlag [keyClause, segClause]) := by
+  apply evaluate_add_unreferenced_attribute
+  · intro fl hfl; simp [auditEnv] at hfl
+  · intro s hs
+    simp only [auditEnv, List.map_cons, List.map_nil, List.mem_cons, List.not_mem_nil, or_false] at hs
+    rcases hs with rfl | rfl <;> intro r hr <;> simp [bigSeg, exSeg] at hr
+  · refine ⟨?_, .inl rfl⟩
+    intro r hr
+    simp only [ruleFlag, List.mem_cons, List.not_mem_nil, or_false] at hr
+    subst hr
+    refine ⟨?_, .inl rfl⟩
+    intro c hc
+    simp only [List.mem_cons, List.not_mem_nil, or_false] at hc
+    rcases hc with rfl | rfl
+    · exact .inr (.inr (.inr (by decide)))
+    · exact .inl rfl
+
+/-- Hypothesis of `evaluate_append_rules_of_kind` / `evaluate_append_rules`: the rule matches. -/
+example : (evaluate auditEnv (ruleFlag [kindClause])).result.detail.reason.kind = .ruleMatch := by
+  decide +kernel
+example (extra : List FlagRule) :
+    evaluate auditEnv { ruleFlag [kindClause] with rules := (ruleFlag [kindClause]).rules ++ extra } =
+      evaluate auditEnv (ruleFlag [kindClause]) :=
+  evaluate_append_rules_of_kind auditEnv _ extra (.inr (.inr (.inr (by decide +kernel))))
+
+/-- Hypotheses of `evaluate_perm_values`: the two values of `keyClause` swapped. -/
+example :
+    evaluate auditEnv { ruleFlag [keyClause, segClause] with rules :=
+      [] ++ { (ruleFlag [keyClause, segClause]).rules.head! with clauses :=
+        [] ++ { keyClause with values := [.str "k", .str "j"] } :: [segClause] } :: [] } =
+      evaluate auditEnv (ruleFlag [keyClause, segClause]) :=
+  evaluate_perm_values auditEnv _ [] _ [] [] keyClause [segClause] _ rfl rfl (by decide) rfl
+    (List.Perm.swap _ _ _)
+
+/-- Hypotheses of `evaluate_perm_clauses_pure`: two attribute clauses swapped. -/
+example :
+    evaluate auditEnv { ruleFlag [keyClause, kindClause] with rules :=
+      [] ++ { (ruleFlag [keyClause, kindClause]).rules.head! with
+        clauses := [kindClause, keyClause] } :: [] } =
+      evaluate auditEnv (ruleFlag [keyClause, kindClause]) := by
+  refine evaluate_perm_clauses_pure auditEnv _ [] _ [] _ rfl (List.Perm.swap _ _ _) ?_
+  intro c hc
+  simp only [ruleFlag, List.head!, List.mem_cons, List.not_mem_nil, or_false] at hc
+  rcases hc with rfl | rfl
+  · exact ⟨by decide, true, by decide +kernel⟩
+  · exact ⟨by decide, true, by decide +kernel⟩
+
+/-- Hypotheses of `evaluate_insert_dead_rule`: the dead rule `email in []` in front. -/
+example :
+    (evaluate auditEnv { ruleFlag [kindClause] with
+      rules := [] ++ { clauses := [deadClause] } :: (ruleFlag [kindClause]).rules }).result.detail =
+      shiftDetail 0 (evaluate auditEnv (ruleFlag [kindClause])).result.detail := by
+  refine (evaluate_insert_dead_rule auditEnv (ruleFlag [kindClause]) [] _
+    { clauses := [deadClause] } rfl ?_).1
+  intro st
+  rw [m_clausesMatch_pure _ (Spec.segContains 0 auditEnv) auditEnv [] _
+    (by intro c hc; simp only [List.mem_cons, List.not_mem_nil, or_false] at hc; subst hc; decide)]
+  rw [dead_rule_example _ auditEnv _ deadClause rfl rfl rfl rfl rfl (by decide) (by decide)
+    (by decide)]
+
+end AuditExamples
+
+end Audit
+
 end LD.C20
 
 #print axioms LD.C20.metadata
@@ -1157,3 +2064,23 @@ end LD.C20
 #print axioms LD.C20.unreferenced_kind
 #print axioms LD.C20.unreferenced_kind_multi
 #print axioms LD.C20.unreferenced_kind_single
+#print axioms LD.C20.evaluate_ctx
+#print axioms LD.C20.evaluate_unreferenced_attribute
+#print axioms LD.C20.evaluate_add_unreferenced_attribute
+#print axioms LD.C20.evaluate_unreferenced_kind
+#print axioms LD.C20.evaluate_unreferenced_kind_multi
+#print axioms LD.C20.evaluate_unreferenced_kind_single
+#print axioms LD.C20.evaluate_rules_eq
+#print axioms LD.C20.evaluate_append_rules
+#print axioms LD.C20.evaluate_append_rules_of_kind
+#print axioms LD.C20.evaluate_rules_equiv
+#print axioms LD.C20.evaluate_replace_clauses
+#print axioms LD.C20.evaluate_perm_values
+#print axioms LD.C20.evaluate_perm_clauses_pure
+#print axioms LD.C20.evaluate_insert_dead_rule
+#print axioms LD.C20.evaluate_result_of_spec
+#print axioms LD.C20.evaluate_perm_clauses_result
+#print axioms LD.C20.evaluate_insert_dead_rule_result
+#print axioms LD.C20.clause_order_observable
+#print axioms LD.C20.shortcut_observable
+#print axioms LD.C20.evaluate_rules_events
